@@ -259,3 +259,65 @@ def store_table(override: bool, pre_content: bool, pre_override: bool, is_none: 
             cover("new-object")
             check("new-object-written-once", outs == [h], outs)
     check("stored-bytes-read-back", codec.load(rt, src, key) == value, None)
+
+
+# ------------------------------------------------------------------------------------------------
+# one store opened under several spellings of its path (another process, a relative path, a symlink)
+# ------------------------------------------------------------------------------------------------
+
+SPELLINGS = ["same", "dot-segment", "dotdot-segment", "symlink", "trailing-slash"]
+
+
+@obligation(
+    "C07.path_spellings",
+    covers=tuple(SPELLINGS) + ("deduplicated", "read-through-the-other-spelling"),
+    bounds="the same store directory opened by two back-end objects under two spellings of its path (identical, with a './' segment, "
+           "with an 'x/../' segment, through a symbolic link, with a trailing slash): results with equal bytes written through either "
+           "are stored once, every memento written through one spelling is found and read through the other, and the integrity scan holds",
+    variables="choice: spelling, value pair, which back-end writes first",
+    budget_s={"quick": 120, "thorough": 300},
+    choice_vars=3,
+)
+def path_spellings(sp: int, same_bytes: bool, swap: bool):
+    from twosigma.memento.storage_filesystem import FilesystemStorageBackend
+
+    sp = pick(sp, len(SPELLINGS))
+    sbts = True if same_bytes else False
+    sw = True if swap else False
+    with concrete_region():
+        sb = Sandbox(kinds="fs")
+        try:
+            root = os.path.join(sb.root, "store")
+            os.makedirs(os.path.join(sb.root, "x"), exist_ok=True)
+            alias = {"same": root, "dot-segment": os.path.join(sb.root, ".", "store"), "dotdot-segment": os.path.join(sb.root, "x", "..", "store"),
+                     "symlink": os.path.join(sb.root, "link"), "trailing-slash": root + "/"}[SPELLINGS[sp]]
+            if SPELLINGS[sp] == "symlink":
+                os.makedirs(root, exist_ok=True)
+                os.symlink(root, alias)
+            cover(SPELLINGS[sp])
+            a = FilesystemStorageBackend(path=root)
+            b = FilesystemStorageBackend(path=alias)
+            first, second = (b, a) if sw else (a, b)
+            v1 = "small"
+            v2 = "small" if sbts else "other"
+            m1 = sm.new_memento(0, sm.VALUES[v1])
+            first.memoize(None, m1, sm.VALUES[v1])
+            m2 = sm.new_memento(2, sm.VALUES[v2])
+            second.memoize(None, m2, sm.VALUES[v2])
+            objs = scan_content_store(root)
+            for h, paths in objs.items():
+                check("equal-bytes-share-one-stored-object", len(paths) == 1, (h, paths))
+                with open(paths[0], "rb") as fh:
+                    check("object-name-is-the-sha256-of-its-bytes", hashlib.sha256(fh.read()).hexdigest() == h, h)
+            if sbts:
+                cover("deduplicated")
+                check("same-content-key-for-equal-bytes", (m1.content_key.key, m1.content_key.version) == (m2.content_key.key, m2.content_key.version),
+                      (m1.content_key, m2.content_key))
+            cover("read-through-the-other-spelling")
+            for be in (a, b):
+                for ci, vn in ((0, v1), (2, v2)):
+                    mem = be.get_memento(sm.FWAS[ci].fn_reference_with_arg_hash())
+                    check("memento-found-through-either-spelling", mem is not None, (ci, SPELLINGS[sp]))
+                    check("value-read-through-either-spelling", sm.values_equal(be.read_result(mem), sm.VALUES[vn]), (ci, vn))
+        finally:
+            sb.close()
